@@ -61,7 +61,7 @@ def scenario_schedules(seed, salt, reps=1):
         return {"ev": "DeliverSel", "p": p, "t": t, "s": s_, "r": rnd}
 
     def tail(steps=160, byz=True, ptimeout=8):
-        return {"ev": "Random", "steps": steps, "seed": r.randrange(1 << 30), "inputs": [1, 2, 1, 2], "vals": [1, 2],
+        return {"ev": "Random", "steps": steps, "seed": r.randrange(1 << 30), "inputs": [1, 2, 1, 2, 1, 2, 1], "vals": [1, 2],
                 "ptimeout": ptimeout, "pbyz": 8 if byz else 0, "pdup": 6, "ploss": 4, "crashes": 0, "plag": 0}
     for rep in range(reps):
         # --- n=4, inst=0: leader(1)=1, leader(2)=2, leader(3)=3 ---------------------------------------------------
@@ -128,6 +128,24 @@ def scenario_schedules(seed, salt, reps=1):
                   [S("C", d, 1, ldr)] + [{"ev": "Timeout", "p": d}] + [S("RC", d, 2, p) for p in rest[:2]] + \
                   [{"ev": "Timeout", "p": p} for p in rest[(rep % 2):]]
             out.append(pre + [tail(byz=False, steps=120)])
+        # G. cluster sizes where 2f+1 < quorum (n = 5, 6): a Byzantine member sends DECIDED certificates of every defect kind
+        #    (among them: one COMMIT short of the quorum, i.e. exactly 2f+1) while only SOME honest members have committed
+        for n in (5, 6):
+            for defect in range(6):
+                inst = (rep + defect) % n
+                ldr = (inst + 1) % n
+                b = (ldr + 2 + defect % (n - 2)) % n
+                if b == ldr:
+                    b = (b + 1) % n
+                hon = [p for p in range(n) if p != b]
+                lv = 1 + (ldr % 2)
+                xs = r.sample(hon, 2)                       # the two members that see the PREPARE quorum and COMMIT
+                pre = [config_step(n, inst, [b])] + [{"ev": "Start", "p": p} for p in hon] + \
+                      [{"ev": "Input", "p": p, "v": 1 + (p % 2)} for p in hon] + \
+                      [S("PP", ldr, 1, p) for p in hon] + [S("P", q, 1, x) for x in xs for q in hon[:4]]
+                to = r.sample(hon, r.randint(1, 3))
+                out.append(pre + [{"ev": "ByzCraft", "kind": "d", "b": b, "r": 1, "v": lv, "vals": [1, 2], "defect": defect,
+                                   "seed": r.randrange(1 << 30), "to": to}, tail(steps=100)])
         # D. honest only: a lagging member jumps to round 2 through a justified PRE-PREPARE that is then re-delivered
         hon = [0, 1, 2, 3]
         pre = [config_step(4, 0, [])] + [{"ev": "Start", "p": p} for p in hon] + \
